@@ -62,6 +62,10 @@ def match_paren(s, i):
             while j < n and s[j] != '"':
                 j += 2 if s[j] == '\\' else 1
             i = j + 1; continue
+        if c == "'":
+            m = re.match(r"'(\\u\{[0-9a-fA-F]+\}|\\.|[^\\'])'", s[i:])
+            if m:
+                i += len(m.group(0)); continue
         if c in OPEN: depth += 1
         elif c in CLOSE:
             depth -= 1
